@@ -49,8 +49,97 @@ def tweak(rng, sc):
     return sc
 
 
+def run_pause_events(ctx, depth):
+    """event-driven execution (monitor only): a paused set is edited, then the pause annotation is removed; nothing else
+    happens to the set or its pods.  Only the controller's own informer handlers and work queue decide when a reconcile
+    runs: while paused no write may be issued, and after the un-pause the set must converge as if it had never been paused."""
+    from props import gen
+    from props.c02 import converged
+    rng = ctx.rng
+    n = 32 if depth == "quick" else 500
+    gen.init_hashes()
+    scs = []
+    for _ in range(n):
+        reps = rng.choice([2, 3, 3, 4])
+        t = rng.choice([1, 2, 3])
+        rev = gen.revname(t)
+        s = rc.mkset(replicas=reps, tmpl=t, policy=rng.choice(["OrderedReady", "Parallel"]), claims=rng.choice([[], ["data"]]))
+        paused_first = rng.random() < 0.7
+        if paused_first:
+            s["ann"] = {"paused-reconcile": "true"}
+        have = [i for i in range(reps) if rng.random() < 0.85]
+        s["status"].update(replicas=len(have), ready=len(have), current=len(have), updated=len(have), currentRevision=rev,
+                           updateRevision=rev, observedGeneration=s["gen"], collisionCount=0)
+        pods = [rc.mkpod(i, rev, claims=s["claims"], tmpl=t) for i in have]
+        claims = sorted({v["claim"] for p in pods for v in p["vols"] if v["claim"]})
+        api = rc.mkworld(s, pods, [rc.mkrev(rev, 1, t, hashlabel=gen.HASH[(t, 0)])], claims)
+        names = ["web-%d" % i for i in range(reps + 3)]
+        ops = [{"op": "refresh", "what": "all", "notify": True}, {"op": "drain", "max": 6}]
+        if not paused_first:
+            ops += [{"op": "edit", "field": "pause", "str": "true"}, {"op": "refresh", "what": "set", "notify": True}, {"op": "drain", "max": 6}]
+        kind = rng.choice(["up", "down", "slot", "tmpl", "none"])
+        if kind == "up":
+            ops += [{"op": "edit", "field": "replicas", "int": reps + 1}]
+        elif kind == "down":
+            ops += [{"op": "edit", "field": "replicas", "int": reps - 1}]
+        elif kind == "slot":
+            ops += [{"op": "edit", "field": "slots", "str": "[%d]" % rng.randrange(reps)}]
+        elif kind == "tmpl":
+            ops += [{"op": "edit", "field": "tmpl", "int": rng.choice([k for k in (1, 2, 3) if k != t])}]
+        ops += [{"op": "refresh", "what": "set", "notify": True}, {"op": "drain", "max": 6}]
+        npaused = len(ops)
+        ops += [{"op": "edit", "field": "pause", "str": None}, {"op": "refresh", "what": "set", "notify": True}]
+        for _r in range(3 * reps + 6):
+            ops += [{"op": "drain", "max": 6}]
+            ops += [{"op": "kubelet", "pod": nm, "ev": "gone"} for nm in names]
+            ops += [{"op": "kubelet", "pod": nm, "ev": "settle"} for nm in names]
+            ops += [{"op": "refresh", "what": "all", "notify": True}]
+        ops += [{"op": "drain", "max": 6}]
+        sc = rc.scenario(api, cache=rc.mkworld(None, [], [], []), ops=ops, tmpls=(1, 2, 3))
+        sc["_npaused"] = npaused
+        sc["_kind"] = kind
+        scs.append(sc)
+    outs = core.run_harness_parallel("reconcile", [{k: v for k, v in sc.items() if not k.startswith("_")} for sc in scs], shards=16)
+    pending = 0
+    for sc, out in zip(scs, outs):
+        ctx.evaluations += 1
+        ctx.count("family:pause-events")
+        ctx.count("pause-events:" + sc["_kind"])
+        steps = out["steps"]
+        bad = []
+        first_paused = 2 if sc["api"]["set"].get("ann") else 5      # steps before: initial refresh/drain (+ the pause itself)
+        for k, st in enumerate(steps[:sc["_npaused"]]):
+            if k >= first_paused and isinstance(st, dict) and "drain" in st:
+                for w in st["drain"]:
+                    wr = [c for c in w["calls"] if c["verb"] not in ("list", "get")]
+                    if wr:
+                        bad.append("a reconcile of the paused set issued %s %s %s" % (wr[0]["verb"], wr[0]["res"], wr[0].get("name", "")))
+        fin = out["final"]
+        fin["pods"] = fin.get("pods") or []
+        if fin.get("set") is None:
+            bad.append("the set disappeared")
+        else:
+            nb = converged(fin, sc["api"]["set"])
+            if nb:
+                bad.append("after the pause was removed and a fair event-driven suffix the set has not converged: %s" % "; ".join(nb[:3]))
+            elif sc["_kind"] == "tmpl":
+                ur = fin["set"]["status"]["updateRevision"]
+                old = [p["name"] for p in fin["pods"] if p["rev"] != ur]
+                if old:
+                    bad.append("after the pause was removed the rolling update did not finish: %s are not at %s" % (old, ur))
+        if sc["_kind"] != "none" or len(sc["api"]["pods"]) < sc["api"]["set"]["replicas"]:
+            pending += 1
+        if bad:
+            ctx.violations.append({"family": "C11/pause-events", "input": {k: v for k, v in sc.items() if not k.startswith("_")},
+                                   "observed": {"final": out["final"]}, "clauses": bad, "signature": {"kind": "C11", "clause": bad[0][:40]}})
+        ctx.nontriv(["pause-events", sc["_kind"], sc["api"]["set"]["replicas"]])
+    ctx.families["C11/pause-events"] = {"histories": n, "with_work_pending_at_the_unpause": pending,
+                                        "tie": "monitor only (informer handlers + real work queue; the model covers single reconciles)"}
+
+
 def run(ctx, depth):
     rc.run_reconcile_property(ctx, depth, "C11", PI, monitor, tweak=tweak)
+    run_pause_events(ctx, depth)
 
 
 def search(ctx):
